@@ -476,8 +476,72 @@ func checkValueComparators(c *core.Ctx) {
 			}
 		}
 	}
-	if nDeleg < 7 {
-		c.Unknown("USERS", "<CompareValueSlices delegations>", 0, fmt.Sprintf("only %d comparators delegating to CompareValueSlices found (GroupKey.Less + 4 join key trees + 2 per-key record trees expected)", nDeleg))
+	// every tree of items keyed by a slice of values is ordered by CompareValueSlices over that key, arguments in
+	// order: judged per construction site (a constructor shared by several trees is one site)
+	nTrees := 0
+	for _, fn := range p.AllFuncs("execution") {
+		fn := fn
+		info := fn.Info()
+		ord := 0
+		ast.Inspect(fn.Decl.Body, func(n ast.Node) bool {
+			call, ok := n.(*ast.CallExpr)
+			if !ok || len(call.Args) == 0 {
+				return true
+			}
+			cn := p.CalleeName(info, call)
+			if !strings.HasSuffix(cn, "btree.NewGenericOptions") && !strings.HasSuffix(cn, "btree.NewGeneric") {
+				return true
+			}
+			ord++
+			key := fmt.Sprintf("%s/tree#%d", p.FName(fn), ord)
+			lit := funcValueLit(p, fn, call.Args[0])
+			if lit == nil || lit.Type.Params.NumFields() != 2 {
+				c.Unknown("USERS", key, call.Pos(), "the tree's comparator cannot be resolved to a function")
+				return true
+			}
+			var names []string
+			for _, f := range lit.Type.Params.List {
+				for _, nm := range f.Names {
+					names = append(names, nm.Name)
+				}
+			}
+			// only trees whose items carry a key of values
+			hasValueKey := false
+			if t := info.TypeOf(lit.Type.Params.List[0].Type); t != nil {
+				if pt, ok := t.Underlying().(*types.Pointer); ok {
+					t = pt.Elem()
+				}
+				if st, ok := t.Underlying().(*types.Struct); ok {
+					for i := 0; i < st.NumFields(); i++ {
+						if strings.HasSuffix(st.Field(i).Type().String(), "octosql.Value") && strings.HasPrefix(st.Field(i).Type().String(), "[]") || strings.HasSuffix(st.Field(i).Type().String(), ".GroupKey") {
+							hasValueKey = true
+						}
+					}
+				}
+			}
+			if !hasValueKey || len(names) != 2 {
+				return true
+			}
+			nTrees++
+			good, got := false, ""
+			if len(lit.Body.List) > 0 {
+				if rs, ok := lit.Body.List[len(lit.Body.List)-1].(*ast.ReturnStmt); ok && len(rs.Results) == 1 {
+					got = core.ExprStr(rs.Results[0])
+					if cc, ok := core.Unparen(rs.Results[0]).(*ast.CallExpr); ok && len(cc.Args) == 2 {
+						if fo, ok := core.Callee(info, cc).(*types.Func); ok && cvs != nil && fo == cvs.Obj {
+							a0, a1 := core.ExprStr(cc.Args[0]), core.ExprStr(cc.Args[1])
+							good = len(lit.Body.List) == 1 && strings.HasPrefix(a0, names[0]+".") && strings.HasPrefix(a1, names[1]+".") && strings.TrimPrefix(a0, names[0]) == strings.TrimPrefix(a1, names[1])
+						}
+					}
+				}
+			}
+			c.Decide(good, "USERS", key, call.Pos(), 1, "ordered by CompareValueSlices(a.key, b.key)",
+				"a tree of items keyed by values must be ordered by CompareValueSlices over the two keys, in argument order (less(a, b) = CompareValueSlices(a.key, b.key)); it is ordered by "+got)
+			return true
+		})
+	}
+	if nDeleg < 1 || nTrees < 3 {
+		c.Unknown("USERS", "<CompareValueSlices delegations>", 0, fmt.Sprintf("only %d comparators delegating to CompareValueSlices and %d trees keyed by values found (GroupKey.Less, join key trees and per-key record trees expected)", nDeleg, nTrees))
 	}
 	// who-may-compare: no reflect.DeepEqual on values
 	for _, fn := range p.AllFuncs("execution", "aggregates", "functions", "outputs", "octosql") {
